@@ -427,6 +427,7 @@ def run_check(name, tier, seed, jobs=None, max_replays=12, limit=None, triage=Fa
         'items_ok': counts['ok'], 'items_violating': counts['violation'], 'items_skipped': counts['skip'],
         'items_timeout': counts['timeout'], 'items_worker_died': counts.get('crash', 0), 'skip_reasons': skips,
         'distinct_outcomes': len(outcomes),
+        'timeout_examples': [canon(it)[:600] for it, res in zip(items, results) if res['status'] == 'timeout'][:4],
         'known_findings_hit': {k: e[1] for k, e in listed.items()},
         'unlisted_violation_signatures': len(seen_sig),
         'per_item_budget_s': budget, 'workers': jobs,
